@@ -164,3 +164,95 @@ func init() {
 		return nil
 	}
 }
+
+// c16Writer observes the chunk sequences the real Writer2 emits over generated call histories
+// and judges them with the format's rules (Spec.legal through the driver).
+func c16Writer(a *checkArgs, r *Result, d *Driver) error {
+	rng := rand.New(rand.NewSource(a.seed + 77))
+	n := 150
+	if a.tier == "thorough" {
+		n = 1500
+	}
+	for i := 0; i < n; i++ {
+		c := w2Case{Op: "writer2-history", LC: 3, PB: 2, DictCap: []int{4096, 65536, 1 << 20}[rng.Intn(3)], BufSize: 4096, Matcher: 0}
+		c.Hist, c.Name = genHistory(rng, 0, i%10 == 0)
+		if i%3 == 0 { // start with chunks that are stored uncompressed, then compressible data
+			c.Hist = append([]w2Op{{"write", hxe(genRandom(rng, 64+rng.Intn(3000)))}, {"flush", ""}}, c.Hist...)
+			c.Name = "wRand F " + c.Name
+		}
+		var buf bytes.Buffer
+		w, err := c.config().NewWriter2(&buf)
+		if err != nil {
+			continue
+		}
+		closed := false
+		for _, op := range c.Hist {
+			if closed {
+				break
+			}
+			switch op.Kind {
+			case "write":
+				w.Write(unhxe(op.Data))
+			case "flush":
+				w.Flush()
+			case "close":
+				w.Close()
+				closed = true
+			}
+		}
+		// walk the chunk headers independently of the library
+		var kinds []string
+		s := buf.Bytes()
+		p := 0
+		bad := ""
+		for p < len(s) {
+			ctl := s[p]
+			switch {
+			case ctl == 0:
+				kinds = append(kinds, "eos")
+				p++
+			case ctl == 1 || ctl == 2:
+				if p+3 > len(s) {
+					bad = "truncated raw header"
+					p = len(s)
+					break
+				}
+				u := int(s[p+1])<<8 | int(s[p+2]) + 1
+				kinds = append(kinds, map[byte]string{1: "ud", 2: "u"}[ctl])
+				p += 3 + u
+			case ctl >= 0x80:
+				k := []string{"l", "lr", "lrn", "lrnd"}[(ctl>>5)&3]
+				hl := 5
+				if k == "lrn" || k == "lrnd" {
+					hl = 6
+				}
+				if p+hl > len(s) {
+					bad = "truncated header"
+					p = len(s)
+					break
+				}
+				cs := int(s[p+3])<<8 | int(s[p+4]) + 1
+				kinds = append(kinds, k)
+				p += hl + cs
+			default:
+				bad = fmt.Sprintf("invalid control byte %#x at %d", ctl, p)
+				p = len(s)
+			}
+		}
+		r.Count("writer:"+c.Name+fmt.Sprint(c.DictCap), len(kinds) >= 2)
+		r.Inc("writer_histories")
+		if bad != "" || p != len(s) {
+			r.Violate("counterexample", "writer-output-not-a-chunk-sequence", c, "the writer's output cannot be walked as LZMA2 chunks: "+bad)
+			continue
+		}
+		rep, err := d.Ask("chunkseq " + strings.Join(kinds, " "))
+		if err != nil {
+			return err
+		}
+		f := strings.Fields(rep)
+		if len(f) != 4 || f[2] != "true" {
+			r.Violate("counterexample", "writer-emits-illegal-chunk-sequence", c, fmt.Sprintf("Writer2 emitted the chunk kinds %v, which the format does not allow (model/spec verdict: %s)", kinds, rep))
+		}
+	}
+	return nil
+}
